@@ -26,7 +26,7 @@ def _int_fields_of_note(model: PyModel) -> set[str]:
 def check(run: Run) -> None:
     model = PyModel(run.repo)
     I = Interp(model)
-    run.rule("C09.R1", "partition: itertools.groupby(X, key=K) only over X = sorted(., key=K) with the same K; group map keyed by str(k)")
+    run.rule("C09.R1", "partition and order, by abstract runs of execute_with_session over scenario notes (equal labels not adjacent, an empty label, two dimensions): every selected note is rendered once under its group headers, groups in label order, notes in composite-key order")
     run.rule("C09.R2", "order-key encodings are order-embedding strings: dates via fixed-width strftime, ints via fixed-width zero padding; the composite key joins all component keys positionally")
     run.rule("C09.R3", "exhaustiveness and wiring: keyfunc / _get_selector / _get_header are total over their enums/levels and pair each member with the right note field and sigil")
     run.rule("C09.R4", "header markers equal the H1..H4_HEADER token literals; headers are omitted only for empty labels")
@@ -34,35 +34,8 @@ def check(run: Run) -> None:
     run.rule("C09.R6", "labels derive from the page path by exact '.zo' removal")
 
     # ---- R1
-    fg = model.func(f"{X}._group_notes_by")
-    gbs = [c for c in ast.walk(fg.node) if isinstance(c, ast.Call) and ast.unparse(c.func).endswith("groupby")]
-    run.floor("groupby call sites", len(gbs), 1)
-    for c in gbs:
-        src = c.args[0]
-        k = kwarg(c, "key") or (c.args[1] if len(c.args) > 1 else None)
-        ok = False
-        why = "the grouped iterable is not a variable assigned from sorted(..., key=<same key>)"
-        if isinstance(src, ast.Name) and k is not None:
-            defs = [n.value for n in walk_no_nested(fg.node) if isinstance(n, ast.Assign) and any(isinstance(t, ast.Name) and t.id == src.id for t in n.targets)]
-            if len(defs) == 1 and isinstance(defs[0], ast.Call) and ast.unparse(defs[0].func) == "sorted":
-                sk = kwarg(defs[0], "key")
-                ok = sk is not None and ast.unparse(sk) == ast.unparse(k) and not kwarg(defs[0], "reverse")
-                why = f"sorted by `{ast.unparse(sk) if sk else None}` but grouped by `{ast.unparse(k)}`"
-        elif isinstance(src, ast.Call) and ast.unparse(src.func) == "sorted" and k is not None:
-            sk = kwarg(src, "key")
-            ok = sk is not None and ast.unparse(sk) == ast.unparse(k)
-        run.check("C09.R1", "groupby runs over the notes sorted by the same key", ok, "_group_notes_by", c,
-                  f"itertools.groupby is applied to notes that are not sorted by the grouping key ({why}): equal keys that are not adjacent form several groups, "
-                  "later ones overwrite earlier ones in the group map and notes vanish from the result", file=FILE_X, node=c)
-    # map keyed by the (string of the) group key, assigned from the recursive call on that group
-    stores = [n for n in walk_no_nested(fg.node) if isinstance(n, ast.Assign) and isinstance(n.targets[0], ast.Subscript)]
-    ok = len(stores) == 1 and isinstance(stores[0].value, ast.Call) and model.callee(fg, stores[0].value) == fg.qualname
-    run.check("C09.R1", "each group is stored once under its own key and grouped further by the remaining dimensions", ok, "_group_notes_by", stores[0] if stores else "no store",
-              "groups are not stored as map[key] = _group_notes_by(group, rest)", file=FILE_X, node=fg.node)
-    # rest = group_by_types[1:], key = group_by_types[0].keyfunc
-    txt = ast.unparse(fg.node)
-    run.check("C09.R1", "one grouping dimension is consumed per level, in order", "[0].keyfunc" in txt and "[1:]" in txt, "_group_notes_by", "dimension recursion",
-              "grouping does not consume dimension 0 and recurse on the rest", file=FILE_X, node=fg.node)
+    P = _Pipeline(run, model)
+    pipeline_eval(run, model, P)
 
     # ---- R2
     int_fields = _int_fields_of_note(model)
@@ -157,7 +130,8 @@ def check(run: Run) -> None:
                       f"selecting {mem.member} reads {getattr(v, 'args', '?')} instead of note.{sel_want[mem.member]}", file=FILE_X)
         if ok and mem.member == "NOTE":
             run.check("C09.R3", "S note renders notes", isinstance(v, FuncV) and v.qualname.endswith("_select_note"), "_get_selector", f"NOTE -> {v}", "NOTE is not rendered by _select_note", file=FILE_X)
-    select_eval(run, model, lx_lits=None)
+    select_eval(run, model, P)
+    run.floor("pipeline evaluations", P.n, 20)
 
     # ---- R4
     lx = LexerGrammar(run.repo, FILE_LEXER)
@@ -245,80 +219,217 @@ def section_labels(run: Run, model: PyModel) -> None:
     run.floor("section label shapes", n, 8)
 
 
-def select_eval(run: Run, model: PyModel, lx_lits=None) -> None:
-    """Abstract evaluation of `_select` on generic groups of generic notes (marker bodies, tags out of alphabetical order with repeats):
-    every selector lists distinct values in first-seen order (sorted only under alpha), NOTE renders through Note.to_string, count(x) is
-    the number of values selecting x yields; nested groups get one header per non-empty label, with the lexer's H1..H4 markers in nesting order."""
-    from ..absint import State
+class _Pipeline:
+    """Abstract runs of execute_with_session: the WHERE result is supplied by the scenario (nothing is queried), saved-query expansion and query compilation are
+    replaced by the scenario's Query object; everything behind them -- grouping, ordering, selecting, rendering -- is zorg's own source, interpreted."""
 
-    I = Interp(model)
-    SS = {x.member: x for x in I.B.enum_members(I, model.cls(f"{T}.SelectStaticType"))}
-    lx = LexerGrammar(run.repo, FILE_LEXER)
-    H = {l: lx.literal_of(f"H{l}_HEADER") for l in (1, 2, 3, 4)}
-    st = State()
+    def __init__(self, run: Run, model: PyModel):
+        self.run_, self.model = run, model
+        lx = LexerGrammar(run.repo, FILE_LEXER)
+        self.H = {l: lx.literal_of(f"H{l}_HEADER") for l in (1, 2, 3, 4)}
+        self.fe = model.func(f"{X}.execute_with_session")
+        mi = model.module_of(X)
+        q_expand = model.resolve_dotted(mi.imports.get("expand_saved_queries", "")) or "zorg.service.swog._saved_queries.expand_saved_queries"
+        q_build = model.resolve_dotted(mi.imports.get("build_zorg_query", "")) or "zorg.service.compiler._api.build_zorg_query"
+        holder = self.holder = {}
 
-    def L(*xs):
-        return st.alloc(HObj("list", items=list(xs)))
+        def expand(I, args, kwargs, st, node):
+            return [(args[1] if len(args) > 1 else kwargs.get("qstring", "Q"), st)]
 
-    def N(body, tags, props, links, fp):
-        return st.alloc(HObj("obj", cls="zorg.domain.models._page.Note", fields=dict(
-            body=body, zid=None, todo_payload=None, areas=L(*tags), contexts=L(*tags), people=L(*tags), projects=L(*tags), properties=st.alloc(HObj("dict", fields=dict(props))),
-            links=L(*links), file_path=fp, create_date=None, modify_date=None, line_no=1, block=None)))
+        def build(I, args, kwargs, st, node):
+            return [(holder["query"], st)]
 
-    n1 = N("b1 text", ["b", "a"], {"k": "v2", "j": "x"}, ["l2", "l1"], "q.zo")
-    n2 = N("b2", ["a", "c"], {"k": "v1"}, ["l1"], "p.zo")
-    n3 = N("b3", [], {"k": "v2"}, [], "q.zo")
-    n4 = N("b4", [], {"k": ""}, [], "q.zo")
-    flat = L(n1, n2, n3)
-    grp = st.alloc(HObj("dict", fields={"G1": st.alloc(HObj("dict", fields={"S1": L(n1), "": L(n2)})), "": st.alloc(HObj("dict", fields={"S2": L(n3)}))}))
-    want = {"AREA": ["b", "a", "c"], "CONTEXT": ["b", "a", "c"], "PERSON": ["b", "a", "c"], "PROJECT": ["b", "a", "c"], "PROPERTY": ["k", "j"], "LINKS": ["l2", "l1"]}
-    fixed = {"FILE": ["p.zo", "q.zo"], "NOTE": ["- b1 text", "- b2", "- b3"]}
-    n = 0
+        def meth(I, recv, name, args, kwargs, st, node):
+            if recv.cls == "vrepo" and name == "get_notes_by_query":
+                return [(st.alloc(HObj("list", items=list(holder["notes"]))), st)]
+            if recv.cls == "ext:time":
+                return [(Opaque("vtime"), st)]
+            if recv.cls.startswith("ext:") and ("ogger" in recv.cls or "logrus" in recv.cls) and name in ("debug", "info", "warning", "warn", "error", "exception", "critical", "log", "bind"):
+                return [(None, st)]
+            return None
 
-    def ev(sel, group, **kw):
-        try:
-            return I.run_function(f"{X}._select", [sel, group], kw, st=st.fork())
-        except Exception as e:
-            run.undecided("C09.R3", "_select", f"cannot interpret: {type(e).__name__}: {str(e)[:100]}")
-            return []
+        def gattr(I, v, name, st, node):
+            if v.cls == "vsession" and name == "repo":
+                return [(Opaque("vrepo"), st)]
+            if v.cls == "vsession" and name == "zdir":
+                return [(Opaque("vpath", "/Z"), st)]
+            return None
 
-    for mem in sorted(SS):
-        for alpha in (False, True):
-            for v, s in ev(SS[mem], flat, alpha_sort=alpha, num_of_levels=0):
-                n += 1
-                if isinstance(v, Raised) or s.imprecise or not isinstance(v, str):
-                    run.undecided("C09.R3", "_select", f"S {mem}: " + (f"raises {v.exc}" if isinstance(v, Raised) else "; ".join(s.imprecise[:2]) or repr(v)))
-                    continue
-                got = [l for l in v.split("\n") if l]
-                exp = fixed.get(mem) or (sorted(want[mem]) if alpha else want[mem])
-                run.check("C09.R3", f"S {mem.lower()}{' (alpha)' if alpha else ''} lists {exp}", got == exp, "_select", f"S {mem} alpha={alpha} -> {got}",
-                          f"selecting {mem} over notes whose values are b,a / a,c / (none) yields {got}, expected {exp}: values are repeated, dropped or re-ordered "
-                          f"({'sorted only when ordered by alpha' if not alpha else 'sorted under alpha'})", file=FILE_X)
-    for v, s in ev(SS["NOTE"], grp, alpha_sort=False, num_of_levels=2):
-        n += 1
-        if isinstance(v, Raised) or s.imprecise or not isinstance(v, str):
-            run.undecided("C09.R4", "_select", "nested groups: " + (f"raises {v.exc}" if isinstance(v, Raised) else "; ".join(s.imprecise[:2]) or repr(v)))
-            continue
-        got = [l for l in v.split("\n") if l.strip()]
-        exp = [f"{H[1]} G1", f"{H[2]} S1", "- b1 text", "- b2", f"{H[2]} S2", "- b3"]
-        run.check("C09.R4", "nested groups: one header per non-empty label, level markers in nesting order, no header for an empty label", got == exp, "_select", f"nested -> {got}",
-                  f"rendering {{G1: {{S1: [b1], '': [b2]}}, '': {{S2: [b3]}}}} gives {got}, expected {exp}", file=FILE_X)
-    flat4 = L(n1, n2, n3, n4)
-    for q, kw, exp, rid in ((f"{T}.SelectAggregation", dict(func_name="count", select_type=SS["AREA"]), ["3"], "C09.R5"), (f"{T}.SelectAggregation", dict(func_name="count", select_type=SS["NOTE"]), ["4"], "C09.R5"),
-                            (f"{T}.SelectPropertyValues", dict(key="k"), ["v2", "v1", ""], "C09.R3")):
-        s0 = st.fork()
-        for obj, s2 in I.construct(q, [], kw, s0):
+        def binop(I, op, l, r, st):
+            if isinstance(l, Opaque) and isinstance(r, Opaque) and l.cls == r.cls == "vtime":
+                return Opaque("vtime")
+            return None
+
+        def to_str(I, v, st):
+            if isinstance(v, Opaque) and v.cls == "vtime":
+                return "0.000"
+            if isinstance(v, Opaque) and v.cls == "vpath":
+                return v.tag
+            return None
+
+        self.I = I = Interp(model, probes={q_expand: expand, q_build: build, "method:*": meth, "getattr:*": gattr, "binop": binop, "str": to_str}, max_states=3000)
+        self.G = {x.member: x for x in I.B.enum_members(I, model.cls(f"{T}.GroupByType"))}
+        self.O = {x.member: x for x in I.B.enum_members(I, model.cls(f"{T}.OrderByType"))}
+        self.SS = {x.member: x for x in I.B.enum_members(I, model.cls(f"{T}.SelectStaticType"))}
+        self.modT = (model.module_of(T), None)
+        self.n = 0
+
+    def _keys_of(self, st, enum_member, notes):
+        """labels / keys the member's key function computes for the notes (None = cannot evaluate)."""
+        I = self.I
+        res = I.run_function(f"{enum_member.cls}.keyfunc", [enum_member], st=st)
+        if len(res) != 1 or isinstance(res[0][0], Raised) or res[0][0] is None:
+            return None
+        out = []
+        for nref in notes:
+            I.ctx_stack.append(self.modT)
             try:
-                res = I.run_function(f"{X}._select", [obj, flat4], {"alpha_sort": False, "num_of_levels": 0}, st=s2)
-            except Exception as e:
-                run.undecided(rid, "_select", f"{q.split('.')[-1]}: cannot interpret: {type(e).__name__}")
+                r = I.call(res[0][0], [nref], {}, st)
+            finally:
+                I.ctx_stack.pop()
+            if len(r) != 1 or not isinstance(r[0][0], str):
+                return None
+            out.append(r[0][0])
+        return out
+
+    def go(self, rid: str, label: str, specs: list, select, group_by: list, order_by: list):
+        """-> (rendered text, [(group path, [note indices in the order they must be rendered])]) or None (undecided, already recorded).
+        A note spec is dict(body=, tags=[...], props={...}, links=[...], fp=, line=)."""
+        I, run = self.I, self.run_
+        st = State()
+
+        def L(*xs):
+            return st.alloc(HObj("list", items=list(xs)))
+
+        notes = [st.alloc(HObj("obj", cls="zorg.domain.models._page.Note", fields=dict(
+            body=d["body"], zid=None, todo_payload=None, areas=L(*d.get("tags", [])), contexts=L(*d.get("tags", [])), people=L(*d.get("tags", [])), projects=L(*d.get("tags", [])),
+            properties=st.alloc(HObj("dict", fields=dict(d.get("props", {})))), links=L(*d.get("links", [])), file_path=Opaque("vpath", d["fp"]), create_date=None, modify_date=None,
+            line_no=d.get("line", 1), block=None))) for d in specs]
+        self.holder["notes"] = notes
+        sel = select(st) if callable(select) else select
+        self.holder["query"] = st.alloc(HObj("obj", cls="zorg.domain.models._query.Query", fields=dict(select=sel, where=None, group_by=tuple(self.G[g] for g in group_by),
+                                                                                                      order_by=tuple(self.O[o] for o in order_by))))
+        glabels = [self._keys_of(st.fork(), self.G[g], notes) for g in group_by]
+        okeys = [self._keys_of(st.fork(), self.O[o], notes) for o in order_by]
+        if any(x is None for x in glabels + okeys):
+            run.undecided(rid, "execute_with_session", f"{label}: cannot evaluate the key functions on the scenario's notes")
+            return None
+        try:
+            res = I.run_function(f"{X}.execute_with_session", [Opaque("vsession"), "Q"], st=st)
+        except Exception as e:  # noqa: BLE001
+            run.undecided(rid, "execute_with_session", f"{label}: cannot interpret: {type(e).__name__}: {str(e)[:100]}")
+            return None
+        idx = list(range(len(notes)))
+        path = {i: tuple(gl[i] for gl in glabels) for i in idx}
+        okey = {i: " ".join(ok[i] for ok in okeys) for i in idx}
+        groups = [(gp, sorted([i for i in idx if path[i] == gp], key=lambda i: okey[i])) for gp in sorted(set(path.values()))]
+        if len(res) != 1:
+            run.undecided(rid, "execute_with_session", f"{label}: {len(res)} abstract outcomes on a concrete scenario")
+            return None
+        v, s = res[0]
+        self.n += 1
+        if isinstance(v, Raised) or s.imprecise or not isinstance(v, str):
+            run.undecided(rid, "execute_with_session", f"{label}: " + (f"raises {v.exc}" if isinstance(v, Raised) else "; ".join(s.imprecise[:2]) or repr(v)))
+            return None
+        return v, groups
+
+    def headers(self, groups) -> list:
+        """[(header lines to print before the group, member indices)] : one header per non-empty label below the point where the path leaves the previous group's."""
+        out, last, first = [], (), True
+        for gp, members in groups:
+            k = 0 if first else next((j for j in range(len(gp)) if j >= len(last) or last[j] != gp[j]), len(gp))
+            out.append(([f"{self.H[lvl + 1]} {gp[lvl]}" for lvl in range(k, len(gp)) if gp[lvl]], members))
+            first, last = False, gp
+        return out
+
+
+def pipeline_eval(run: Run, model: PyModel, P: "_Pipeline") -> None:
+    """Every selected note is rendered exactly once, under one header per non-empty label of its group path, groups in label order at each level,
+    notes of a group in composite-key order (stable); count() over an empty selection prints 0.  Labels and order keys are those the enum key
+    functions compute for the scenario's notes -- the rule is about partition / order / rendering, whatever data structure carries the groups."""
+    fe = P.fe
+    # equal labels not adjacent in the WHERE result, an empty label, two dimensions, line 10 vs line 5 of one page
+    specs = [dict(body=b, tags=t, fp=fp, line=ln) for b, t, fp, ln in (("b1", ["a2"], "q.zo", 5), ("b2", ["a1"], "p.zo", 3), ("b3", ["a2"], "p.zo", 1), ("b4", [], "p.zo", 2),
+                                                                        ("b5", ["a1"], "q.zo", 10), ("b6", ["a2"], "q.zo", 10), ("b7", ["a1"], "p.zo", 30))]
+    for label, gb, ob in (("grouped by area then file", ["AREA", "FILE"], ["NONE"]), ("grouped by file", ["FILE"], ["NONE"]), ("not grouped", [], ["NONE"])):
+        r = P.go("C09.R1", label, specs, P.SS["NOTE"], gb, ob)
+        if r is None:
+            continue
+        raw, groups = r
+        got = [l.strip() for l in raw.split("\n") if l.strip()]
+        exp = [x for hs, members in P.headers(groups) for x in hs + ["- " + specs[i]["body"] for i in members]]
+        miss = [l for l in exp if l not in got]
+        dup = [l for l in set(got) if l.startswith("- ") and got.count(l) > 1]
+        why = (f"{miss} missing" if miss else f"{dup} rendered twice" if dup else "order / headers differ")
+        run.check("C09.R1", f"{label}: every selected note once, under its group headers, groups and notes in key order", got == exp, "execute_with_session", f"{label}: {got}",
+                  f"S note {label} over 7 notes (areas a2,a1,a2,-,a1,a2,a1; pages q,p,p,p,q,q,p) renders {got}, expected {exp}: {why}", file=FILE_X, node=fe.node)
+
+    def count_sel(st):
+        return P.I.construct(f"{T}.SelectAggregation", [], dict(func_name="count", select_type=P.SS["NOTE"]), st)[0][0]
+
+    r = P.go("C09.R5", "count over no notes", [], count_sel, [], ["NONE"])
+    if r is not None:
+        raw = r[0]
+        run.check("C09.R5", "count(note) over an empty selection prints 0", raw.strip() == "0", "execute_with_session", f"empty selection: {raw!r}",
+                  f"count(note) with a WHERE clause no note satisfies prints {raw!r}, expected '0' (count(x) is the number of entries selecting x yields)", file=FILE_X, node=fe.node)
+
+
+def select_eval(run: Run, model: PyModel, P: "_Pipeline") -> None:
+    """What each selector renders for a group, through the whole pipeline (notes with marker bodies, tags out of alphabetical order with repeats, an empty
+    property value): distinct values in first-seen order of the ORDERED notes (sorted only under `O alpha`), NOTE through Note.to_string, count(x) the
+    number of values selecting x yields, a property's values including the empty one."""
+    specs = [dict(body="b1 text", tags=["b", "a"], props={"k": "v2", "j": "x"}, links=["l2", "l1"], fp="q.zo", line=1), dict(body="b2", tags=["a", "c"], props={"k": "v1"}, links=["l1"], fp="p.zo", line=1),
+             dict(body="b3", tags=[], props={"k": "v2"}, links=[], fp="q.zo", line=2), dict(body="b4", tags=[], props={"k": ""}, links=[], fp="q.zo", line=3), dict(body="b5", tags=[], props={"k": "v3"}, links=[], fp="q.zo", line=4)]
+
+    def distinct(xs):
+        return list(dict.fromkeys(xs))
+
+    def values(mem, order):
+        if mem in ("AREA", "CONTEXT", "PERSON", "PROJECT"):
+            return distinct(t for i in order for t in specs[i]["tags"])
+        if mem == "PROPERTY":
+            return distinct(k for i in order for k in specs[i]["props"])
+        if mem == "LINKS":
+            return distinct(l for i in order for l in specs[i]["links"])
+        if mem == "FILE":
+            return sorted({specs[i]["fp"] for i in order})
+        if mem == "NOTE":
+            return ["- " + specs[i]["body"] for i in order]
+        return None
+
+    for mem in sorted(P.SS):
+        for alpha in (False, True):
+            r = P.go("C09.R3", f"S {mem.lower()}{' O alpha' if alpha else ''}", specs, P.SS[mem], [], ["ALPHA"] if alpha else ["NONE"])
+            if r is None:
                 continue
-            for v, s in res:
-                n += 1
-                if isinstance(v, Raised) or s.imprecise or not isinstance(v, str):
-                    run.undecided(rid, "_select", f"{q.split('.')[-1]}: " + (f"raises {v.exc}" if isinstance(v, Raised) else "; ".join(s.imprecise[:2]) or repr(v)))
-                    continue
-                got = v[:-2].split("\n") if v.endswith("\n\n") else [v]
-                run.check(rid, f"{q.split('.')[-1]}({', '.join(f'{k}={getattr(x, 'member', x)}' for k, x in kw.items())}) yields {exp}", got == exp, "_select", f"{q.split('.')[-1]} -> {got}",
-                          f"{q.split('.')[-1]} over four notes (areas b,a / a,c / - / -; property k = v2, v1, v2, '') yields {got}, expected {exp}" + (" (count(x) must be the number of values selecting x yields)" if "Aggregation" in q else ""), file=FILE_X)
-    run.floor("select evaluations", n, 18)
+            raw, groups = r
+            order = groups[0][1]
+            exp = values(mem, order)
+            if exp is None:
+                run.undecided("C09.R3", "_get_selector", f"no expectation for SelectStaticType.{mem}")
+                continue
+            if alpha and mem not in ("NOTE", "FILE"):
+                exp = sorted(exp)
+            got = [l for l in raw.split("\n") if l]
+            run.check("C09.R3", f"S {mem.lower()}{' (alpha)' if alpha else ''} lists {exp}", got == exp, "execute_with_session", f"S {mem} alpha={alpha} -> {got}",
+                      f"selecting {mem} over notes whose values are b,a / a,c / (none) yields {got}, expected {exp}: values are repeated, dropped or re-ordered "
+                      f"({'sorted only when ordered by alpha' if not alpha else 'sorted under alpha'})", file=FILE_X)
+    for q, kw, exp, rid in ((f"{T}.SelectAggregation", dict(func_name="count", select_type=P.SS["AREA"]), lambda order: [str(len(values("AREA", order)))], "C09.R5"),
+                            (f"{T}.SelectAggregation", dict(func_name="count", select_type=P.SS["NOTE"]), lambda order: [str(len(order))], "C09.R5"),
+                            (f"{T}.SelectPropertyValues", dict(key="k"), lambda order: distinct(specs[i]["props"]["k"] for i in order if "k" in specs[i]["props"]), "C09.R3")):
+        r = P.go(rid, q.split(".")[-1], specs, lambda st, q=q, kw=kw: P.I.construct(q, [], kw, st)[0][0], [], ["NONE"])
+        if r is None:
+            continue
+        raw, groups = r
+        want = exp(groups[0][1])
+        got = raw.split("\n")
+        # the pipeline strips the rendering: an empty LAST value cannot be told from the stripped tail, so compare modulo trailing empties
+        while got and got[-1] == "":
+            got.pop()
+        w2 = list(want)
+        while w2 and w2[-1] == "":
+            w2.pop()
+        run.check(rid, f"{q.split('.')[-1]}({', '.join(f'{k}={getattr(x, 'member', x)}' for k, x in kw.items())}) yields {want}", got == w2, "execute_with_session", f"{q.split('.')[-1]} -> {got}",
+                  f"{q.split('.')[-1]} over five notes (areas b,a / a,c / - / - / -; property k = v2, v1, v2, '', v3) yields {got}, expected {want}" + (" (count(x) must be the number of values selecting x yields)" if "Aggregation" in q else ""), file=FILE_X)
+
+
